@@ -447,6 +447,10 @@ type run struct {
 	onlyOK   bool // every receiver answer in this script is "ok" and the process never stops
 	corrupt  map[uint32]bool // pages whose XOR leaf the environment corrupted and the repair has not visited yet
 	fatalGen map[string]int
+	wpOK     map[string]bool            // WritePayload returned nil for this transaction
+	inflight map[string]int             // Add calls of this transaction that have not returned yet
+	dupWP    map[string]bool            // WritePayload was called although the payload event of this transaction had been published before
+	offered  map[string]map[string]bool // payload kinds this transaction was offered with
 	killed   bool // the incarnation died inside a receiver; steps until the scripted Crash cannot happen
 	restarts int
 	actors   map[string]bool
@@ -557,7 +561,19 @@ func (r *run) receive(gen int, sub string, ev dag.Event) (bool, error) {
 		r.viol("C14", "retried-after-fatal", fmt.Sprintf("subscriber %s reported a fatal error for %s and was called again without a restart", sub, n))
 	}
 	if r.finished[key] && r.w.props["C14"] {
-		r.viol("C14", "recalled-after-completion", fmt.Sprintf("subscriber %s was called again for %s after its completion had been recorded", sub, n))
+		isPayloadSub := false
+		for _, sd := range r.w.in.Subs {
+			if sd.Name == sub && sd.Type == "payload" {
+				isPayloadSub = true
+			}
+		}
+		if isPayloadSub && r.dupWP[n] {
+			// the payload of this transaction was written a second time (answers of several participants to the broadcast
+			// payload query): State.WritePayload publishes the payload event again
+			r.viol("C14", "recalled-after-duplicate-payload", fmt.Sprintf("subscriber %s was called again for the payload of %s after its completion had been recorded, because the same payload was written a second time", sub, n))
+		} else {
+			r.viol("C14", "recalled-after-completion", fmt.Sprintf("subscriber %s was called again for %s after its completion had been recorded", sub, n))
+		}
 	}
 	resp := "ok"
 	if r.defResp != "" {
@@ -761,6 +777,19 @@ func (r *run) checkDerived(st dag.State, db stoabs.KVStore, when string, skipXor
 		}
 		if !skip && !gx.Equals(foldXor(s, upto)) {
 			r.violL("C08", "xor", fmt.Sprintf("%s: XOR(%d) differs from the XOR of the stored transactions with clock <= %d (stored=%s)", when, c, upto, r.names(s)))
+			// C06: is the difference exactly a transaction of the universe that is NOT stored (rejected / rolled back)?
+			want := foldXor(s, upto)
+			for n, cand := range r.w.txs {
+				if cand == nil || cand.tx == nil {
+					continue
+				}
+				if _, isStored := s.clock[cand.ref]; isStored {
+					continue
+				}
+				if want.Xor(cand.ref).Equals(gx) {
+					r.violL("C06", "unstored-in-xor", fmt.Sprintf("%s: the XOR digest contains %s, which is not stored (rejected or rolled back)", when, n))
+				}
+			}
 		}
 		gi, gic := st.IBLT(c)
 		if gic != upto {
@@ -769,6 +798,16 @@ func (r *run) checkDerived(st dag.State, db stoabs.KVStore, when string, skipXor
 		ref := foldIblt(s, upto)
 		if err := gi.Subtract(ref); err != nil || !gi.Empty() {
 			r.violL("C08", "iblt", fmt.Sprintf("%s: IBLT(%d) differs from the IBLT of the stored transactions with clock <= %d", when, c, upto))
+			// C06: the surplus decodes to transactions that are not stored (rejected / rolled back)
+			if err == nil {
+				if extra, _, derr := gi.Decode(); derr == nil {
+					for _, ref := range extra {
+						if _, isStored := s.clock[ref]; !isStored {
+							r.violL("C06", "unstored-in-iblt", fmt.Sprintf("%s: the IBLT contains %s, which is not stored (rejected or rolled back)", when, r.name(ref)))
+						}
+					}
+				}
+			}
 		}
 	}
 }
@@ -883,7 +922,7 @@ func (r *run) quiescent(actors map[string]bool) bool {
 func (w0 *world) runScript(t *testing.T, sc script) *result {
 	w := w0.variant(sc.Defects)
 	res := &result{ID: sc.ID, Violations: []violation{}, Drift: []string{}, Trace: []map[string]any{}}
-	r := &run{w: w, res: res, actors: map[string]bool{}, corrupt: map[uint32]bool{}, fatalGen: map[string]int{}, ledger: map[string][]string{}, finished: map[string]bool{}, respQ: map[string][]string{}, addErr: map[string]error{}}
+	r := &run{w: w, res: res, actors: map[string]bool{}, corrupt: map[uint32]bool{}, fatalGen: map[string]int{}, wpOK: map[string]bool{}, inflight: map[string]int{}, dupWP: map[string]bool{}, offered: map[string]map[string]bool{}, ledger: map[string][]string{}, finished: map[string]bool{}, respQ: map[string][]string{}, addErr: map[string]error{}}
 	r.path = filepath.Join(w.dir, "run-"+sc.ID+".db")
 	defer os.Remove(r.path)
 	if err := copyFile(w.template, r.path); err != nil {
@@ -997,6 +1036,13 @@ func (w0 *world) runScript(t *testing.T, sc script) *result {
 			r.res.Trace = append(r.res.Trace, map[string]any{"ev": "add.begin", "p": p, "t": c.name, "pl": s.str("pl")})
 			r.mu.Unlock()
 			plKind := s.str("pl")
+			if r.offered[c.name] == nil {
+				r.offered[c.name] = map[string]bool{}
+			}
+			r.offered[c.name][plKind] = true
+			r.mu.Lock()
+			r.inflight[c.name]++
+			r.mu.Unlock()
 			present0 := false
 			if st0, e0 := readStored(inc.inner); e0 == nil {
 				_, present0 = st0.clock[c.ref]
@@ -1011,6 +1057,9 @@ func (w0 *world) runScript(t *testing.T, sc script) *result {
 					}
 				}
 				r.mu.Lock()
+				if r.inc == inc {
+					r.inflight[c.name]--
+				}
 				r.addErr[p] = err
 				res := "ok"
 				if err != nil {
@@ -1046,8 +1095,13 @@ func (w0 *world) runScript(t *testing.T, sc script) *result {
 				return false, nil
 			}
 			dir := "go"
-			if a == "Rollback" && lastLW[p] != "error" {
+			if a == "Rollback" && !strings.HasPrefix(lastLW[p], "error") {
 				dir = "fail" // injected commit failure; an error of the write function itself is left to the real code
+			}
+			if a == "LockWrite" && strings.HasPrefix(s.str("res"), "error-") {
+				// a storage error in the middle of the write function: every Put on that shelf fails
+				shelf := map[string]string{"tx": "documents", "iblt": "ibltBucket", "xor": "xorBucket"}[strings.TrimPrefix(s.str("res"), "error-")]
+				dir = "failput:" + shelf
 			}
 			now, err := sched.Step(p, want, dir)
 			if err != nil {
@@ -1083,10 +1137,49 @@ func (w0 *world) runScript(t *testing.T, sc script) *result {
 			return true, nil
 		case "WritePayload":
 			c := w.txs[s.str("t")]
-			r.res.Trace = append(r.res.Trace, map[string]any{"ev": "writepayload", "t": c.name})
+			// the model writes the payload of a STORED transaction; when the Add that stores it is still blocked inside the
+			// code under test (deferred steps), wait for it
+			if st0, e0 := readStored(r.inc.inner); e0 == nil {
+				if _, present := st0.clock[c.ref]; !present {
+					r.mu.Lock()
+					busy := r.inflight[c.name] > 0
+					r.mu.Unlock()
+					if busy {
+						return false, nil
+					}
+					r.res.Drift = append(r.res.Drift, "WritePayload("+c.name+"): the transaction is not stored, step skipped")
+					return true, nil
+				}
+			}
+			dup := false
+			for _, sd := range w.in.Subs {
+				if sd.Type != "payload" {
+					continue
+				}
+				if _, queued := r.jobs(sd.Name)[c.name]; queued {
+					dup = true
+				}
+				r.mu.Lock()
+				for _, n := range r.ledger[sd.Name] {
+					if n == c.name {
+						dup = true
+					}
+				}
+				r.mu.Unlock()
+			}
+			r.mu.Lock()
+			ev := map[string]any{"ev": "writepayload", "t": c.name}
+			if dup {
+				r.dupWP[c.name] = true
+				ev["dup"] = true
+			}
+			r.res.Trace = append(r.res.Trace, ev)
+			r.mu.Unlock()
 			err := r.inc.st.WritePayload(context.Background(), c.tx, hash.SHA256Sum(c.payload), c.payload)
 			if err != nil {
 				r.res.Drift = append(r.res.Drift, "WritePayload: "+err.Error())
+			} else {
+				r.wpOK[c.name] = true
 			}
 			return true, nil
 		case "Corrupt":
@@ -1300,6 +1393,7 @@ func (r *run) crash() error {
 	r.mu.Lock()
 	r.inc = nil
 	r.killed = false
+	r.inflight = map[string]int{}
 	for a := range r.actors {
 		delete(r.actors, a) // the goroutines of the dead incarnation are gone
 	}
@@ -1496,12 +1590,22 @@ func (r *run) checkDelivery() {
 	if err != nil {
 		return
 	}
+	// a payload event is owed for a transaction whose payload was admitted FOR THAT TRANSACTION (Add with payload, or
+	// WritePayload): when two stored transactions declare the same payload hash, presence of the bytes alone does not tell
+	// for which of them they were admitted
 	payloadPresent := map[string]bool{}
 	pkeys, _ := shelfKeys(r.inc.inner, "payloads", stoabs.HashKey{})
 	for _, k := range pkeys {
+		var sharers []string
 		for ref, tx := range s.parsed {
 			if bytes.Equal(tx.PayloadHash().Slice(), k) {
-				payloadPresent[r.name(ref)] = true
+				sharers = append(sharers, r.name(ref))
+			}
+		}
+		for _, n := range sharers {
+			onlyGood := len(r.offered[n]) == 1 && r.offered[n]["good"]
+			if len(sharers) == 1 || r.wpOK[n] || onlyGood {
+				payloadPresent[n] = true
 			}
 		}
 	}
